@@ -93,6 +93,11 @@ func (r *FileReader) ReadNext() ([]byte, error) {
 			return nil, fmt.Errorf("error while parsing record header of '%s': %w", r.file.Name(), err)
 		}
 
+		err = checkRecordSizes(r.header, payloadSizeUncompressed, payloadSizeCompressed)
+		if err != nil {
+			return nil, fmt.Errorf("error while parsing record header of '%s': %w", r.file.Name(), err)
+		}
+
 		if recordNil {
 			r.currentOffset = r.currentOffset + (r.reader.Count() - start)
 			return nil, nil
@@ -150,6 +155,11 @@ func (r *FileReader) SkipNext() error {
 		payloadSizeUncompressed, payloadSizeCompressed, recordNil, err := readRecordHeaderV4(r.recordHeaderByteReader)
 		if err != nil {
 			return r.skipHeaderError(err)
+		}
+
+		err = checkRecordSizes(r.header, payloadSizeUncompressed, payloadSizeCompressed)
+		if err != nil {
+			return fmt.Errorf("error while reading record header of '%s': %w", r.file.Name(), err)
 		}
 
 		expectedBytesSkipped := payloadSizeUncompressed
